@@ -73,6 +73,9 @@ def gen(r, tier, i):
                 script[str(t)] = ['add', c]
             t += r.choice([1.0, 2.0])
     calls = [[r.choice(IV), r.choice([True, False, 'update'])] for _ in range(r.randint(1, 4))]
+    if r.random() < 0.2:
+        # a forced call over an empty interval (completes what an unforced call left behind)
+        calls.insert(r.randint(1, len(calls)), [0.0, r.choice([True, 'update'])])
     total = sum(c[0] for c in calls)
     while total > 14 and len(calls) > 1:
         total -= calls.pop()[0]
@@ -294,8 +297,19 @@ def run(spec):
     V.check('initial_row', bool(hist) and hist[0][2] == spec['t0'] and not init_steps,
             lambda: ('first history row is not at the initial time', hist[0][2] if hist else None, spec['t0']))
     times = [ev[2] for ev in hist]
-    V.check('times_increasing', all(b > a for a, b in zip(times, times[1:])),
+    # Known finding: a forced call over an empty interval completes, at the current global time T, the
+    # processes an earlier unforced call left behind; when T already has a row the engine emits a second
+    # row for T. Exactly that history is labelled with its mechanism; any other repeated or decreasing
+    # time key is not.
+    from vmon.sensors import superseded_rows
+    sup = superseded_rows(m.events)
+    pairs = list(enumerate(zip(times, times[1:])))
+    V.check('times_increasing', all(b > a or (b == a and sup[i]) for i, (a, b) in pairs),
             lambda: ('row times not strictly increasing', times[:30]))
+    V.check('times_increasing', not any(b == a and sup[i] for i, (a, b) in pairs),
+            lambda: ('second row for a time that already had one, emitted by a forced call over an empty interval',
+                     [a for i, (a, b) in pairs if b == a][:4], spec['calls']),
+            mechanism='second-row-after-empty-forced-interval')
     # one row per time at which updates were applied
     apply_times = set()
     last_emit_t = None
@@ -327,8 +341,9 @@ def run(spec):
     # every time at which the state changed has exactly one row: compare snapshots at consecutive
     # clock values - a state change between two rows must be covered by the later row's time
     # rows: exactly one per distinct clock value at which an emit happened
-    V.check('row_per_update_time', len(times) == len(set(times)),
-            lambda: ('more than one row for one time', [t for t in times if times.count(t) > 1][:6]))
+    unexplained = [t for i, t in enumerate(times) if times.count(t) > 1 and not sup[i] and not (i and sup[i - 1])]
+    V.check('row_per_update_time', not unexplained,
+            lambda: ('more than one row for one time', unexplained[:6]))
     # batches: clock values after which a process update was applied = those where the director/processes were due
     due = due_times(spec)
     missing = [t for t in due if t not in emitted_at]
@@ -347,7 +362,9 @@ def run(spec):
         V.check('row_after_steps', snap['out']['sum'] == s and snap['out']['twice'] == 2 * s,
                 lambda: ('row at t=%r emitted before that time\'s step phase completed' % ev[2], snap['out'], s))
     # emit_step differential
-    rows1 = {ev[2]: ev[3] for ev in hist}
+    rows1 = {}
+    for ev in hist:
+        rows1.setdefault(ev[2], []).append(ev[3])
     for k in spec['emit_steps']:
         try:
             mk, okk, exck = run_once(spec, k)
@@ -358,7 +375,7 @@ def run(spec):
         tk = [ev[2] for ev in hk]
         V.check('emit_step_no_duplicates', len(tk) == len(set(tk)) and all(b > a for a, b in zip(tk, tk[1:])),
                 lambda: ('emit_step=%r delivers several rows for one time' % k, tk[:20]))
-        bad = [ev[2] for ev in hk if ev[2] not in rows1 or not _eq(prune(rows1[ev[2]]), prune(ev[3]))]
+        bad = [ev[2] for ev in hk if not any(_eq(prune(r1), prune(ev[3])) for r1 in rows1.get(ev[2], []))]
         V.check('emit_step_subset', not bad and (not hk or hk[0][2] == spec['t0']),
                 lambda: ('emit_step=%r rows are not a subset of the emit_step=1 rows with equal content' % k, bad[:6]))
         total = sum(c[0] for c in spec['calls'])
